@@ -470,9 +470,23 @@ def judge2(case, out):
                 return ("op %d %s generate of %s changed the caller's tree %d (the backends work on a deep copy)"
                         % (i, op[0], ".".join(op[2]), op[1])), "generate-writes"
             if r["got"][:2] != r["want"][:2]:
+                tag = "flatten-differs"
+                # narrow tag of the known finding: the requested class's subtree holds both a class and a copy of it
+                # (or of a class containing it) that was added by add_class — one deepcopy then reaches a
+                # ClassModificationArgument and a copy whose hook is still bound to the same source argument
+                for prev in case["ops"][:i]:
+                    if prev[0] == "transplant" and prev[1] == op[1]:
+                        S, T, R = list(prev[4]), list(prev[2]) + [prev[4][-1]], list(op[2])
+                        if _comparable(R, S) and _comparable(R, T):
+                            tag = "argument-hook-aliasing"
                 return ("op %d %s of %s in tree %d gives %s; a fresh parse with this tree's own edits gives %s"
-                        % (i, op[0], ".".join(op[2]), op[1], r["got"], r["want"])), "flatten-differs"
+                        % (i, op[0], ".".join(op[2]), op[1], r["got"], r["want"])), tag
     return None, None
+
+
+def _comparable(a, b):
+    n = min(len(a), len(b))
+    return a[:n] == b[:n]
 
 
 def _new_tree_index(ops, i):
